@@ -98,42 +98,39 @@ def campaign(c):
             elif 'error' not in out:
                 c.violation('io:no-diagnostic:' + name, '%s: no diagnostic printed' % name, dict(args=args, out=out))
             c.case(('other', name), dict(kind=name, rc=rc, out=out[-160:]))
-        # the same faults inside a batch: the failing input first, in the middle and last among inputs that succeed — the run as a
-        # whole has to report the failure (exit status) whatever follows it, and the good inputs are still compiled
-        good = os.path.join(d, 'good.rsyn'); open(good, 'wb').write(src)
-        good2 = os.path.join(d, 'good2.rsyn'); open(good2, 'wb').write(src)
-        nodata = os.path.join(d, 'nodata.rsyn'); open(nodata, 'wb').write(b'import io;\nimport eth;\neth::frame("|000000000001|", "|000000000002|", io::file("absent.bin"));\n')
-        od = os.path.join(d, 'bo'); os.mkdir(od)
-        for fname, bad_in in (('missing-input', os.path.join(d, 'missing.rsyn')), ('input-is-dir', d + '/sub.rsyn'), ('missing-datafile', nodata)):
-            for pos, order in (('first', [bad_in, good, good2]), ('middle', [good, bad_in, good2]), ('last', [good, good2, bad_in])):
-                for f in os.listdir(od): os.remove(os.path.join(od, f))
-                rc, out, err = run(['--out-dir', od] + order)
-                name = 'batch:%s:%s' % (fname, pos)
-                if 'panicked' in err or rc not in (0, 1):
-                    c.violation('io:panic:' + name, '%s: panic / abnormal exit %d: %s' % (name, rc, err[-200:]), dict(args=order))
-                elif rc == 0:
-                    c.violation('io:claimed-success:' + name, '%s: an input of the batch failed but the exit status is 0' % name, dict(args=order, out=out))
-                elif out.count('error') < 1 or not (os.path.exists(os.path.join(od, 'good.pcap')) and os.path.exists(os.path.join(od, 'good2.pcap'))):
-                    c.violation('io:batch:' + name, '%s: no diagnostic for the failing input, or a good input of the batch was not compiled' % name, dict(args=order, out=out))
-                c.case(('batch', fname, pos), dict(kind=name, rc=rc))
-        # write fault inside a batch: the big output hits the file-size limit, the small ones before and after it fit
-        bigp = os.path.join(d, 'big.rsyn'); open(bigp, 'wb').write(big_program(3, 4000))
-        import resource
-        def limited():
-            import signal
-            signal.signal(signal.SIGXFSZ, signal.SIG_IGN)
-            resource.setrlimit(resource.RLIMIT_FSIZE, (5000, 5000))
-        for pos, order in (('first', [bigp, good]), ('last', [good, bigp]), ('middle', [good, bigp, good2])):
-            for f in os.listdir(od): os.remove(os.path.join(od, f))
-            p = subprocess.run([core.CLI, '--out-dir', od] + order, capture_output=True, cwd=d, timeout=60, preexec_fn=limited)
-            name = 'batch:write-fault:%s' % pos
-            if b'panicked' in p.stderr or p.returncode not in (0, 1):
-                c.violation('io:panic:' + name, '%s: panic / abnormal exit %d' % (name, p.returncode), dict(args=order))
-            elif p.returncode == 0:
-                c.violation('io:claimed-success:' + name, '%s: a write fault in one input of the batch, exit status 0' % name, dict(args=order, out=p.stdout.decode()))
-            elif not os.path.exists(os.path.join(od, 'good.pcap')) or os.path.exists(os.path.join(od, 'big.pcap')):
-                c.violation('io:batch:' + name, '%s: the good input was not compiled or the incomplete output was kept' % name, dict(args=order, out=p.stdout.decode()))
-            c.case(('batch', 'write-fault', pos), dict(kind=name, rc=p.returncode))
+        # the same faults inside a batch (src/cli.rs `resynth()`, Model/Batch.lean): the failing input first, in the middle and
+        # last among inputs that succeed - the run as a whole has to report the failure (exit status) whatever follows it,
+        # the failing input gets a diagnostic and leaves no output, and the good inputs are still compiled
+        from .. import batch
+        good = dict(stem='good', src=src); good2 = dict(stem='good2', src=src)
+        nodata = dict(stem='nodata', src=b'import io;\nimport eth;\neth::frame("|000000000001|", "|000000000002|", io::file("absent.bin"));\n')
+        bigi = dict(stem='big', src=big_program(3, 4000))
+        faults = [('missing-input', dict(stem='missing', src=None), None), ('input-is-dir', dict(stem='sub', src=None, isdir=True), None),
+                  ('missing-datafile', nodata, None), ('write-fault', bigi, 5000), ('not-a-file-name', dict(stem=None, src=None), None)]
+        for fname, bad_in, budget in faults:
+            for pos, order in (('first', [bad_in, good, good2]), ('middle', [good, bad_in, good2]), ('last', [good, good2, bad_in]), ('alone', [bad_in]),
+                               ('twice', [bad_in, good, dict(bad_in), good2])):
+                for keep in (False, True):
+                    impl, model = batch.compare(c, order, keep=keep, budget=budget, what='batch-fault')
+                    name = 'batch:%s:%s%s' % (fname, pos, ':keep' if keep else '')
+                    rep = dict(kind=name, out=impl['stdout'][-600:])
+                    bi = [k for k, x in enumerate(order) if x is bad_in or (x.get('stem') == bad_in.get('stem') and x.get('src') == bad_in.get('src') and x is not good and x is not good2)]
+                    if 'panic' in impl['reports']:
+                        c.violation('io:panic:' + name, '%s: panic / abnormal exit %s' % (name, impl['exit']), rep)
+                    elif impl['exit'] == 0:
+                        c.violation('io:claimed-success:' + name, '%s: an input of the batch failed but the exit status is 0' % name, rep)
+                    elif len(impl['reports']) != len(order) or any(impl['reports'][k] == 'ok' for k in bi):
+                        c.violation('io:no-diagnostic:' + name, '%s: the failing input was not reported as failed: %s' % (name, impl['reports']), rep)
+                    elif any(impl['reports'][k] != 'ok' for k in range(len(order)) if k not in bi) or not all(g in impl['dir'] for g in ('good', 'good2') if any(x is good or x is good2 for x in order) and (g == 'good' or good2 in order)):
+                        c.violation('io:batch:' + name, '%s: a good input of the batch was not compiled: %s %s' % (name, impl['reports'], sorted(impl['dir'])), rep)
+                    elif not keep and bad_in.get('stem') in impl['dir']:
+                        c.violation('io:batch-output-kept:' + name, '%s: the incomplete output of the failing input was left behind' % name, rep)
+                    c.case(('batch', fname, pos, keep), dict(kind=name, exit=impl['exit'], reports=impl['reports']))
+        # the output directory itself is missing: every input fails, none is claimed
+        impl, model = batch.compare(c, [good, good2], outdir_missing=True, what='batch-fault')
+        if impl['exit'] == 0 or 'ok' in impl['reports']:
+            c.violation('io:claimed-success:batch:missing-outdir', 'outputs cannot be created but the run claims success', dict(out=impl['stdout'][-400:]))
+        c.case(('batch', 'missing-outdir'), dict(kind='batch:missing-outdir', reports=impl['reports']))
         # data file for io::file missing / present
         s2 = b'import io;\nimport eth;\neth::frame("|000000000001|", "|000000000002|", io::file("data.bin"));\n'
         for present in (False, True):
